@@ -137,6 +137,11 @@ class World:
     def ref_read(ref, start, stop):
         return [(ref[i] if i < len(ref) else 0) for i in range(start, stop)]
 
+    def ref_expand(self, ref, start, n):
+        """a read through State.mslice expands memory (zero-filled) as the EVM does; a plain ByteVec.slice does not change its operand"""
+        if self.state is not None and n and start + n > len(ref):
+            ref.extend([0] * (start + n - len(ref)))
+
     # -- apply one letter ----------------------------------------------------------
     def apply(self, letter):
         BV = self.BV
@@ -172,6 +177,7 @@ class World:
                 s = int(src[4:])
                 atoms = self.ref_read(ra, s, s + n)
                 v = self.state.mslice(s, n) if self.state is not None else a.slice(s, s + n)
+                self.ref_expand(ra, s, n)
             elif src == "bv1":
                 data = bytes((0x50 + self.step * 7 + i) % 256 for i in range(n))
                 v, atoms = BV(data), list(data)
@@ -233,6 +239,7 @@ class World:
             _, s, n = letter
             r = self.state.mslice(s, n) if self.state is not None else a.slice(s, s + n)
             rr = self.ref_read(ra, s, s + n)
+            self.ref_expand(ra, s, n)
             r.set_byte(0, 0x66)
             self.ref_write(rr, 0, [0x66])
             self.frozen.append((f"read@{self.step}", r, rr))
